@@ -18,6 +18,7 @@ import (
 	"encoding/json"
 	"flag"
 	"fmt"
+	"math/big"
 	"os"
 	"runtime/pprof"
 	"time"
@@ -82,8 +83,12 @@ func setup(r *report.Run) *env {
 	w := world.New(world.Config{Stakes: world.StakesOf(1_000_000, 1_000_000, 1_000_000), Users: []string{"S1", "S2"}, Height: 101})
 	e := &env{w: w, r: r, queue: world.TurnstoneQueue(target), s1: w.User("S1"), s2: w.User("S2")}
 	ctx := w.Root
-	must(w.AddChain(ctx, target, 1, 1))
-	must(w.AddChain(ctx, other, 56, 2))
+	// chains as world.AddChain makes them, but with a minimal compass ABI: the
+	// chain record is decoded on every queue access and the ABI plays no role here
+	for i, ref := range []string{target, other} {
+		must(w.App.EvmKeeper.AddSupportForNewChain(ctx, ref, uint64(1+55*i), 100, "0x"+fmt.Sprintf("%064x", 1+55*i), big.NewInt(0)))
+		must(w.App.EvmKeeper.ActivateChainReferenceID(ctx, ref, &evmtypes.SmartContract{Id: uint64(i + 1), AbiJSON: "[]", Bytecode: []byte{0x60, 0x80}}, world.CompassAddr, []byte(world.CompassID)))
+	}
 	for _, v := range w.Vals {
 		e.snapA = append(e.snapA, v.EthAddr())
 		e.driftA = append(e.driftA, ethAddrOf("c14-drift-"+v.Name))
